@@ -147,7 +147,7 @@ DoCb ==
     /\ IF op.name \in {"clone", "iter_clone"} \cup CloneFromOps
        THEN CloneStep(IF op.name = "clone" THEN op.srcs[1][op.k + 1]
                       ELSE IF op.name = "clone_from" THEN op.srcs[2][op.k + 1]
-                      ELSE SetMin(SeqRange(CloneSrcSeq) \ DOMAIN op.cmap), NewId)
+                      ELSE SetMin(SeqRange(CloneSrcSeq) \ DOMAIN op.cmap), NewId, -1)
        ELSE Cb([k |-> op.k, idx |-> op.k, args |-> CbArgs(op.name, op.srcs, op.n, op.k), acc |-> op.acc,
                 pv |-> IF op.name = "zipx" THEN op.k ELSE -1])
     /\ UNCHANGED <<hist, nexth>>
